@@ -108,11 +108,13 @@ structure Quirks where
   vaComma : Bool       -- a `,` before an empty `__VA_ARGS__` that is followed by `)` is dropped (Macro::expandToken)
   stringSpace : Bool   -- `#`: no space after an operator made by combineOperators (its whitespaceahead flag is that of its first
                        -- character) and after a string literal made by an inner `#`
-  elifEval : Bool      -- the condition of `#elif` is evaluated although an earlier group of the section was taken
+  elifEval : Bool      -- the condition of `#elif` is evaluated although an earlier group of the section was taken (F11h, fixed in 8474bf0)
   pasteBlue : Bool     -- the tokens of a multi-token argument next to `##` that are not pasted are not rescanned
   deriving DecidableEq, Repr
 
-def Quirks.code : Quirks := ⟨true, true, true, true⟩
+def Quirks.code : Quirks := ⟨true, true, false, true⟩   -- elifEval: off since /repo commit 8474bf0 (F11h fixed)
+/-- the code before commit 8474bf0 (kept for the record of F11h) -/
+def Quirks.before8474bf0 : Quirks := ⟨true, true, true, true⟩
 def Quirks.std : Quirks := ⟨false, false, false, false⟩
 
 def paint (q : Quirks) (l : List XTok) : List XTok := if q.pasteBlue then l.map fun t => { t with blue := true } else l
